@@ -122,15 +122,38 @@ def build(E):
         if not (isinstance(r, VObj) and r.cls == RESP):
             return z3.BoolVal(False)
         got = ctx.ghost.get("get_result")
-        if got is not None:
-            return z3.BoolVal(got.oid == r.oid)
-        st, meta, body = ctx.getf(r, "status"), ctx.getf(r, "meta"), ctx.getf(r, "body")
+        if got is not None and got.oid == r.oid:
+            return z3.BoolVal(True)
+        st, meta, body = ctx.force(ctx.getf(r, "status")), ctx.force(ctx.getf(r, "meta")), ctx.force(ctx.getf(r, "body"))
         return z3.And(st.z == 43, z3.BoolVal(isinstance(meta, VStr)), z3.BoolVal(isinstance(body, VNoneT)))
+
+    def malformed_meta(ctx, m):
+        sur = []
+        mb = E.enc_term(ctx, m, sur)
+        return z3.Or(z3.Length(mb) > 1024, z3.Contains(m, SV("\r")), z3.Contains(m, SV("\n")))
+
+    def ha_relay(ctx, old, args, outcome):
+        """[C18] the upstream response object itself is returned whenever its META can go on the wire as received; otherwise, and for every
+        exception of the fetch, one 43 without body"""
+        if outcome[0] != "return":
+            return z3.BoolVal(False)
+        r = outcome[1]
+        got = ctx.ghost.get("get_result")
+        st, body = ctx.force(ctx.getf(r, "status")), ctx.force(ctx.getf(r, "body"))
+        is43 = z3.And(st.z == 43, z3.BoolVal(isinstance(body, VNoneT)))
+        if got is None:
+            return is43
+        gm = ctx.force(ctx.getf(got, "meta")).z
+        bad = z3.Or(malformed_meta(ctx, gm), codecs_model.has_surrogate(gm))
+        if got.oid == r.oid:
+            return z3.Not(bad)
+        return z3.And(is43, bad)
 
     E.contracts[f"{PX}._handle_async"] = Contract(
         f"{PX}._handle_async", make_args=ha_args,
         ensures=[("exactly one fetch, of upstream ++ map_path(prefix, strip, path) ++ [?query], with follow_redirects=False", ha_map),
-                 ("returns the upstream response object unchanged, or a 43 response when the fetch raised anything; never raises", ha_result)])
+                 ("returns the upstream response object, or a 43 response; never raises", ha_result),
+                 ("[C18] the upstream response object is returned unchanged exactly when its META can be relayed as received (at most 1024 bytes, no CR/LF); otherwise, and whenever the fetch raised, one 43 without body", ha_relay)])
 
     # ---- handle: returns the coroutine of _handle_async(request) ------------------------------
     def h_args(ctx):
@@ -176,6 +199,7 @@ def build(E):
         ensures=[("establishes the class invariant (same authority, no trailing '/', prefix/strip as configured); refuses non-gemini upstreams with ValueError", init_post)])
 
     spec.targets = [f"{PX}._handle_async", f"{PX}.handle", f"{PX}.__init__"]
+    spec.keep = lambda name: "[C18]" not in name
     spec.trusted += ["E7: host and port of a URL are functions of its authority (the text between '://' and the first of / ? #)",
                      "precondition: the configured upstream has a non-empty authority (a configuration such as 'gemini://' or 'gemini:///x' is outside the property's configurations)",
                      "request.path starts with '/' and has no ?#, request.query has no # (post of parse_url, decided under C19)"]
